@@ -345,6 +345,20 @@ def deAlphaOpt (g : Cfg) (f : Fmt) (d : Desc) (maxIntensity : α) (t : GTree α)
   | .ok (c, a) => .ok (c, a.getD maxIntensity)
   | .error e => .error e
 
+/-- the constants of a component type that a default for a missing alpha can name (`Stimulus::max_intensity`, `num::One::one`,
+    `num::Zero::zero` / `Stimulus::min_intensity`) -/
+structure CompConsts (α : Type) where
+  maxIntensity : α
+  one : α
+  zero : α
+
+/-- what the helpers' `alpha.unwrap_or_else(<T>::<name>)` evaluates to; `name` is read from serde.rs on every run -/
+def optDefault (name : String) (k : CompConsts α) : Option α :=
+  if name == "max_intensity" then some k.maxIntensity
+  else if name == "one" then some k.one
+  else if name == "zero" || name == "min_intensity" || name == "default" then some k.zero
+  else none
+
 /-- a hue on its own -/
 def deHue (tr : Bool) (f : Fmt) : GTree α → Res α
   | .val (.num x) => if !tr && f.newtypeWrapped then .error .invalidType else .ok x
